@@ -22,6 +22,7 @@ import (
 	"context"
 	"encoding/json"
 	"errors"
+	"sync"
 	"time"
 
 	"github.com/bradfitz/gomemcache/memcache"
@@ -101,7 +102,23 @@ func (s SessionStoreImpl[T]) Put(key string, value interface{}, options ...Sessi
 	}
 	return s.underlying.Set(context.Background(), s.db.getFullKey(s.prefixes, key), T(bytes), store.WithExpiration(opts.ttl))
 }
+
+// sessionMutex serializes the check-then-act sequences on session stores within this process (see Atomically).
+var sessionMutex sync.Mutex
+
+// Atomically runs f without another call of Atomically or GetAndDelete in this process running at the same time.
+// It is for sequences that check a session store and then change it, e.g. "use this value only once":
+// of two concurrent requests presenting the same value only one may find it unused.
+// Nodes that share a Redis or Memcached store are not serialized by it.
+func Atomically(f func() error) error {
+	sessionMutex.Lock()
+	defer sessionMutex.Unlock()
+	return f()
+}
+
 func (s SessionStoreImpl[T]) GetAndDelete(key string, target interface{}) error {
+	sessionMutex.Lock()
+	defer sessionMutex.Unlock()
 	if err := s.Get(key, target); err != nil {
 		return err
 	}
